@@ -576,6 +576,11 @@ class Exec(ExprMixin, CallMixin):
       # no invariant: allowed only for loops we can unroll (constant length)
       if view is not None and z3.is_int_value(z3.simplify(view.length)):
         return self.unroll(s, st, view, z3.simplify(view.length).as_long())
+      if view is not None:
+        # length not syntactically constant: ask the solver whether it is a small constant
+        for n in (0, 1, 2):
+          if not self.feasible_full(st, view.length != n):
+            return self.unroll(s, st, view, n)
       self.unsupp(f'loop #{o} without invariant', s)
     oid = f'loop{o}'
     names = self.assigned_names(s.body)
@@ -843,6 +848,8 @@ class Exec(ExprMixin, CallMixin):
       self.oblige(f'exit/no-{name}', 'raises-iff', st, z3.Not(cond(pre_ctx)),
                   f'returns normally only when the {name} condition is false')
     self.oblige('post', 'post', st, ctr.ensures(ctx), 'postcondition at return')
+    if ctr.pivots is not None and self.obligations and not self.discovery:
+      self.obligations[-1].pivots = ctr.pivots(ctx)
     for gid, g in self.frame_goals(ctx, st):
       self.oblige(gid, 'frame', st, g, 'frame condition at return')
 
